@@ -79,6 +79,8 @@ func pool(thorough bool) []val {
 		{Src: "{|x| -x}(1.5)", Fam: "float"}, {Src: "{|x| -x}(-1.5)", Fam: "float"}, {Src: "(0.0 - 1.5)", Fam: "float"}, {Src: "(3.0 / 2)", Fam: "float"}, {Src: `"1.5".F`, Fam: "float"}, {Src: "{|x| +x}(2.5)", Fam: "float"}, {Src: "{|x| /~x}(1.5)", Fam: "float"},
 		{Src: "{|x| -x}(1)", Fam: "int"}, {Src: "{|x| -x}(-7)", Fam: "int"}, {Src: "{|x| /~x}(-2)", Fam: "int"}, {Src: `"7".I`, Fam: "int"}, {Src: "(14 // 2)", Fam: "int"},
 		{Src: `{|x| -x}("a")`}, {Src: `{|x| x * 1}("ab")`, Fam: "str"}, {Src: `"ab".A.join("")`, Fam: "str"}, {Src: `'ab.S`, Fam: "str"},
+		// plain objects that hold what an Either holds; arrays whose elements are equal across types (1 / true, 0 / false)
+		{Src: "{_value: 1}"}, {Src: "Obj.new(1)"}, {Src: "{_error: 1.try./(0).err}"}, {Src: "{_value: 2}"}, {Src: "[1, 2]"}, {Src: "[true, 2]"}, {Src: "[0]"}, {Src: "[false]"}, {Src: "[[1], [true]]"}, {Src: "{a: true}"}, {Src: "%{1: true}"}, {Src: "%{1: 1}"},
 		{Src: "ff"}, {Src: "{|x| x}"}, {Src: "{|x| x + 1}"}, {Src: "m{|x| x}"},
 		{Src: "1.try"}, {Src: "2.try"}, {Src: `"a".try`}, {Src: "1.try./(0)"}, {Src: "1.try./(0).err"}, {Src: "1.try.nosuch.err"},
 	}
